@@ -2,7 +2,7 @@ open Util
 (* C15T <hex string> ; refused|ok|nodeadline <http status> <lo ns> <hi ns> *)
 let run inp obs : string option * string option =
   match inp, obs with
-  | "C15T" :: s :: ([] | ["s"] | ["w"] | ["p"]), [kind; _code; lo; hi] ->
+  | "C15T" :: s :: (([] | ["s"] | ["w"] | ["p"] | ["x"]) as variant), [kind; _code; lo; hi] ->
     let s = bytes_of_hex s in
     let refused = (kind = "refused") in
     let spec =
@@ -16,7 +16,14 @@ let run inp obs : string option * string option =
                       else Some (Printf.sprintf "deadline expired before the handler ran but grpc-status is %s, not 4" _code))
       else if kind = "nodeadline" then
         (match Timeout.decode_timeout s with None -> Some "handler invoked for a malformed grpc-timeout" | Some _ -> Some "handler ran without a deadline")
-      else if Timeout.timeout_obs_ok s refused (z_of_string lo) (z_of_string hi) then None
+      else if Timeout.timeout_obs_ok s refused (z_of_string lo) (z_of_string hi) then
+        (* variant x: the upload arrives 400 ms after the request; a deadline counted from the end of the upload lies 400 ms
+           late (200 ms of slack for the scheduler) *)
+        (match variant, Timeout.decode_timeout s with
+         | ["x"], Some ns when kind = "ok" && int_of_z ns < 1_000_000_000_000_000 && int_of_string hi - int_of_z ns > 200_000_000 ->
+           Some (Printf.sprintf "grpc-timeout %S on a gRPC-web-text request whose body arrived 400 ms after the request: the handler's deadline lies %d ms after receipt + T -- it was counted from the end of the upload"
+                   (bytes_str s) ((int_of_string hi - int_of_z ns) / 1_000_000))
+         | _ -> None)
       else Some (Printf.sprintf "grpc-timeout %S: implementation %s (time left between %s and %s ns), grammar says %s"
                    (bytes_str s) kind lo hi
                    (match Timeout.decode_timeout s with None -> "malformed: refuse" | Some ns -> "legal: " ^ string_of_int (int_of_z ns) ^ " ns")) in
